@@ -268,3 +268,30 @@ def twin_cases(run):
             want = [["first twin w%d" % n, "more of the first"], ["second twin w%d" % n, "more of the second"]]
             if docs != want:
                 run.violation(case, want, docs, "a doccomment of one of two same-named definitions is dropped, duplicated or misattributed")
+
+
+def fixed_cases(run):
+    """Doccomment shapes outside the canonical form of DocClean.tla (closing delimiter on its own line): one-line
+    doccomments, a closing delimiter at the end of the last text line, a documented command without arguments, a field
+    that names a parameter as written while a strip pattern is configured.  Every text given must reach the page."""
+    import agg
+    cases = [
+        ("#[[[#]]\nfunction(f0)\nendfunction()\n", [], "f0("),
+        ("#[[[ #]]\nfunction(f1)\nendfunction()\n", [], "f1("),
+        ("#[[[[]#]]\nfunction(f2)\nendfunction()\n", [], "f2("),
+        ("#[[[ one-line text w1 #]]\nfunction(f3)\nendfunction()\n", ["one-line text w1"], "f3("),
+        ("#[[[\n# first line w2\n# closing delimiter behind the text w2 #]]\nfunction(f4)\nendfunction()\n",
+         ["first line w2", "closing delimiter behind the text w2"], "f4("),
+        ("#[[[\n# a command without arguments w3\n#]]\nenable_testing()\n", ["a command without arguments w3"], "enable_testing("),
+        ("#[[[\n# also without arguments w4\n#]]\ninclude_guard()\nmessage(x)\n", ["also without arguments w4"], "include_guard("),
+        ("cpp_class(K)\n#[[[\n# doc of the member w5\n# :param _p_a: written with its prefix w5\n#]]\ncpp_member(m K int)\nfunction(\"${m}\" self _p_a)\nendfunction()\ncpp_end_class()\n",
+         ["doc of the member w5", ":param _p_a: written with its prefix w5"], "m("),
+    ]
+    for src, texts, marker in cases:
+        status, text, _, _ = agg.run_real(src, agg.make_settings(None, {"f": True, "m": True, "x": True}))
+        run.count("fixed-doc:" + src)
+        case = {"source": src, "features": {"fixed_doc_shape": True}}
+        if status != "ok":
+            run.violation(case, "page", status + " " + text, "the pipeline raised on a valid doccomment shape")
+        elif marker not in text or any(t not in text for t in texts):
+            run.violation(case, texts + [marker], text, "doc text of a valid doccomment shape does not reach the page as written")
